@@ -132,6 +132,11 @@ def make_series(rng, dt, pat):
         vals = [rng.choice([rand_whole_float, rand_frac_float])(rng) for _ in range(n)]
         if n:
             vals[rng.randrange(n)] = rand_frac_float(rng)
+        if n >= 3 and rng.random() < 0.6:
+            # both signed zeros next to a fractional value: str() must keep '0.0' and '-0.0' apart
+            i0, i1, i2 = rng.sample(range(n), 3)
+            vals[i0], vals[i1] = 0.0, -0.0
+            vals[i2] = rand_frac_float(rng)
     elif dt in ('object', 'str'):
         vals = [rand_str(rng) for _ in range(n)]
     elif dt == 'object_mixed':
